@@ -78,7 +78,7 @@ type Trace struct {
 	Writes  []*WriteRec
 	WByPath map[string][]*WriteRec
 	APIs    []*APIRec
-	Status  []*APIRec // status yields: each is an observation (Snap) at RetSeq
+	Status  []*APIRec          // status yields: each is an observation (Snap) at RetSeq
 	Direct  map[string][]Event // direct reads by note (D0, D1, D2, crash, hang)
 	Crashes []int              // seq of crash events
 	Parks   map[string][]int   // label -> seqs of park events announcing it
